@@ -265,6 +265,7 @@ type isoCase struct {
 	nProv   int
 	access  string // a live access token of c20 for the userinfo probe
 	sigAlg  jose.SignatureAlgorithm
+	last    snapshot
 }
 
 func (c *isoCase) violation(key, what string, extra map[string]any) {
@@ -330,6 +331,23 @@ func (c *isoCase) step(desc string, self any, grey func(change) bool, act func()
 		c.violation(ch.Key, fmt.Sprintf("step %q changed %s", desc, ch.Name), map[string]any{"step": len(c.log) - 1, "change": ch})
 	}
 	c.checkOthers(self, desc, false)
+	// the probes just made are uses of the instances too (discovery, routes, token / userinfo calls): they must
+	// leave package state and watched objects alone as well
+	c.last = after
+	c.settle(desc, grey)
+}
+
+// settle compares the state with the last one seen: whatever happened in between were uses of the instances.
+func (c *isoCase) settle(desc string, grey func(change) bool) {
+	now := c.state()
+	for _, ch := range diff(c.last, now) {
+		if grey != nil && grey(ch) {
+			continue
+		}
+		c.log[len(c.log)-1].Changes = append(c.log[len(c.log)-1].Changes, ch)
+		c.violation(ch.Key, fmt.Sprintf("serving the requests that probe the instances after step %q changed %s", desc, ch.Name), map[string]any{"step": len(c.log) - 1, "change": ch})
+	}
+	c.last = now
 }
 
 func resClass(res string) string {
@@ -527,6 +545,7 @@ func (c *isoCase) buildProvider(ps provSpec) {
 	}
 	c.run.Observed("iso:provider-built:" + map[bool]string{true: "defaults", false: "custom"}[ps.Mask == 0])
 	c.provs = append(c.provs, inst)
+	c.settle("prov "+name+" (first requests)", greyProv)
 }
 
 func greyProv(ch change) bool {
@@ -1118,6 +1137,7 @@ func runScenario(run *ev.Run, idx int, specs []spec) {
 	}
 	if len(c.log) > 0 {
 		c.checkOthers(nil, "end of scenario", true)
+		c.settle("end of scenario", greyProv)
 	}
 	if len(mux.Panics()) > 0 {
 		for _, pi := range mux.Panics() {
@@ -1132,15 +1152,15 @@ func runScenario(run *ev.Run, idx int, specs []spec) {
 	restoreGlobals()
 }
 
-// quickProv / the stride over client pairs: the quick tier enumerates every ordered pair of a 7-element sub-catalogue
+// quickProv / the stride over client pairs: the quick tier enumerates every ordered pair of an 8-element sub-catalogue
 // of provider option sets and every 3rd ordered pair of client-side option sets; thorough enumerates every ordered
-// pair of both catalogues and every ordered triple of provider option sets.
+// pair of both full catalogues and every ordered triple of the sub-catalogue.
 var quickProv = []int{0, 1, 2, 8, 9, 10, 11, 13}
 
 func isoCounts(run *ev.Run) (provPairs, cliPairs, provTriples int) {
 	np, nc := len(provCatalogue), len(cliCatalogue)
 	if run.Tier == ev.Thorough {
-		return np * np, nc * nc, np * np * np
+		return np * np, nc * nc, len(quickProv) * len(quickProv) * len(quickProv)
 	}
 	return len(quickProv) * len(quickProv), (nc*nc + 2) / 3, 0
 }
@@ -1168,9 +1188,9 @@ func scenarioSpecs(run *ev.Run, idx int) []spec {
 		rot := []string{"code", "userinfo", "refresh", "clientcreds", "device", "browser", "verify", "revoke"}
 		return []spec{{Kind: "cli", Cli: cliCatalogue[a]}, {Kind: "cli", Cli: cliCatalogue[b]}, {Kind: "call", Target: 1}, {Kind: "call", Target: 0},
 			{Kind: "call", Target: 1, API: rot[idx%len(rot)]}, {Kind: "call", Target: 0, API: rot[(idx/3)%len(rot)]}}
-	case idx < pp+cp+pt: // ordered triple of provider option sets
-		k := idx - pp - cp
-		return []spec{prov(k / (np * np)), prov(k / np % np), prov(k % np)}
+	case idx < pp+cp+pt: // ordered triple of provider option sets (of the sub-catalogue)
+		k, q := idx-pp-cp, len(quickProv)
+		return []spec{prov(quickProv[k/(q*q)]), prov(quickProv[k/q%q]), prov(quickProv[k%q])}
 	}
 	r := run.CaseRand(2, idx)
 	n := 3 + r.IntN(6)
